@@ -106,6 +106,12 @@ Proof.
   eexists. split; vm_compute; reflexivity.
 Qed.
 
+(** every generated definition used above is the translation of the CURRENT source (when a function
+    leaves the translatable shapes the generator emits a fall-back text for the executable check only
+    and sets this flag to false: this obligation then breaks) *)
+Example C17_translation_current : samplergen_current = true.
+Proof. reflexivity. Qed.
+
 Print Assumptions C17_defaults_list.
 Print Assumptions C17_defaults_dict.
 Print Assumptions C17_defaults_key.
